@@ -100,6 +100,20 @@ WHOLE_TREE = [
      'what': 'every non-parameter local variable and nested function of every function renamed (suffix added)'},
     {'id': 'whole-tree-opaque-rename', 'kind': 'silent', 'transform': 'opaque_rename_tree',
      'what': 'every non-parameter local variable and nested function renamed to a meaningless name (zq0, zq1 ...)'},
+    {'id': 'whole-tree-swap-branches', 'kind': 'silent', 'transform': 'swap_branches_tree',
+     'what': 'every if/else with a plain else branch gets its test negated and its branches exchanged'},
+    {'id': 'whole-tree-hoist-else', 'kind': 'silent', 'transform': 'hoist_else_tree',
+     'what': 'else branches after a body that ends in return/raise/continue/break are de-nested (no-else-return)'},
+    {'id': 'whole-tree-nest-tail', 'kind': 'silent', 'transform': 'nest_tail_tree',
+     'what': 'statements after an if whose body ends in return/raise are moved into an else branch'},
+    {'id': 'whole-tree-percent-to-fstring', 'kind': 'silent', 'transform': 'percent_to_fstring_tree',
+     'what': "every '%s' % (...) with constant format becomes an f-string"},
+    {'id': 'whole-tree-membership-list', 'kind': 'silent', 'transform': 'membership_list_tree',
+     'what': 'constant tuples on the right of in / not in become lists'},
+    {'id': 'whole-tree-yoda', 'kind': 'silent', 'transform': 'yoda_tree',
+     'what': "every  a.b == 'c'  becomes  'c' == a.b"},
+    {'id': 'whole-tree-aug-expand', 'kind': 'silent', 'transform': 'aug_expand_tree',
+     'what': 'n += 1 becomes n = n + 1 for plain names'},
 ]
 
 
